@@ -116,6 +116,18 @@ def main(argv):
             break
         rng = gen.case_rng(seed, prop, 0, i)
         case = mod.make_case(rng, i, tier)
+        ex = getattr(mod, "EXTREMES", None)
+        if ex and i % 6 == 5 and isinstance(case, dict) and case.get(ex) is not None:
+            # every sixth case is re-labelled to the ends of the legal ranges (channel 15, pitches 0 / 127, velocities 1 / 127)
+            specs = case[ex] if isinstance(case[ex], list) else [case[ex]]
+            case["extremes"] = gen.extremify(specs, i)
+            LOG.n("extreme_value_cases")
+        rs = getattr(mod, "RESTATE", None)
+        if rs and i % 5 == 2 and isinstance(case, dict) and isinstance(case.get(rs), dict):
+            done = gen.restate_signatures(case[rs], i)
+            if done:
+                case["restated_signature"] = done
+                LOG.n("restated_signature_cases")
         res, fails, cross = execute(mod, case, ctx, LOG)
         evaluations += 1
         for c in cross:
